@@ -398,6 +398,14 @@ def container_attr(it, o, name):
             return Arr([list(r) for r in zip(*o.d)])
         if name == 'shape':
             return o.shape()
+        if name == 'ndim':
+            return o.ndim
+        if name == 'size':
+            sh = o.shape()
+            n_ = 1
+            for d_ in sh:
+                n_ *= d_
+            return n_
     if isinstance(o, PolyT):
         if name in ('coeffs', 'c', 'coef', 'coefficients'):
             return Arr(list(o.c))
@@ -1076,6 +1084,49 @@ def call_ext(it, dotted, args, kwargs):
         return Arr([[Rat.const(1 if i == j else 0) for j in range(n)] for i in range(n)])
     if short == 'array':
         return _to_arr(it, args[0])
+    if short == 'roots' and mod == 'numpy' and len(args) == 1:
+        cs = args[0].c if isinstance(args[0], PolyT) else [_num(c) for c in it.iterate(args[0])]
+        fr = [c.as_fraction() for c in cs]
+        if any(f is None for f in fr):
+            raise Undecidable('external call numpy.roots')
+        while fr and fr[0] == 0:
+            fr = fr[1:]
+        # roots at zero (trailing zero coefficients)
+        zeros = 0
+        while len(fr) > 1 and fr[-1] == 0:
+            fr = fr[:-1]
+            zeros += 1
+        if len(fr) <= 1:
+            return Arr([Rat.const(0)] * zeros)
+        if len(fr) == 2:
+            return Arr([Rat.const(-fr[1] / fr[0])] + [Rat.const(0)] * zeros)
+        if len(fr) == 3:
+            a_, b_, c_ = fr
+            disc = b_ * b_ - 4 * a_ * c_
+            if disc >= 0:
+                sq = apply_fn('sqrt', Rat.const(disc))
+            else:
+                sq = apply_fn('sqrt', Rat.const(-disc)) * Rat.const(1j)
+            return Arr([(Rat.const(-b_) + sq) / Rat.const(2 * a_), (Rat.const(-b_) - sq) / Rat.const(2 * a_)] + [Rat.const(0)] * zeros)
+        raise Undecidable('external call numpy.roots (degree %d)' % (len(fr) - 1))
+    if short == 'nonzero' and mod == 'numpy' and len(args) == 1:
+        v = args[0] if isinstance(args[0], Arr) else _to_arr(it, args[0])
+        if v.ndim != 1:
+            raise Undecidable('numpy.nonzero of a 2-D array')
+        idx = [i for i, x in enumerate(v.d) if it.truth(it.compare_vals('ne', x, 0))]
+        return (Arr([Rat.const(i) for i in idx]),)
+    if short in ('round', 'around', 'round_') and mod == 'numpy':
+        nd = as_int(args[1]) if len(args) > 1 else as_int(kwargs.get('decimals', 0))
+
+        def rnd(x):
+            x = _num(x)
+            f = x.as_fraction()
+            if f is not None and nd is not None and (f * 10 ** nd).denominator == 1:
+                return x                      # representable with that many decimals: unchanged
+            if f is not None and nd is not None:
+                return Rat.const(Fr(round(f * 10 ** nd), 10 ** nd))
+            return apply_fn('round', x)       # a symbolic number rounded: no longer that number
+        return _mapnum(rnd, args[0])
     if short == 'iterable' and mod == 'numpy':
         v = args[0]
         if isinstance(v, (list, tuple, Arr, PolyT, str, dict, set, StrT)):
@@ -1286,11 +1337,30 @@ class _FlagVal(object):
         return 'bool(%r)' % (self.src,)
 
 
+def _closed_value(x):
+    """float value of a closed expression (functions of constants only), None otherwise"""
+    from .poly import _ATOMS
+    try:
+        ats = x.atoms()
+        if ats and all(_ATOMS[a].fn is not None for a in ats):
+            v = x.evalf({})
+            if v == v and abs(v.imag) <= 1e-12 * max(1.0, abs(v.real)):
+                return v.real
+    except (ValueError, ZeroDivisionError, OverflowError, KeyError, TypeError):
+        pass
+    return None
+
+
 def _ceil(x):
     f = x.as_fraction()
     if f is not None:
         import math
         return Rat.const(math.ceil(f))
+    v = _closed_value(x)
+    if v is not None:
+        import math
+        if abs(v - round(v)) > 1e-9:          # clear of an integer: the ceiling is decided
+            return Rat.const(math.ceil(v))
     return apply_fn('ceil', x)
 
 
